@@ -964,4 +964,281 @@ theorem fad_keyOf_prefix_ne (gs1 gs2 : List Grp) (h : GrpsPlain (gs1 ++ gs2)) (h
   · simp at e
     exact hne e.2
 
+/-! ## the invariant: the path list renders the position of the current node -/
+
+theorem fad_stepsGet_nil (v : Val) : stepsGet v [] = some v := by cases v <;> rfl
+
+theorem fad_stepsGet_append : ∀ (a b : List StepSp) (v : Val),
+    stepsGet v (a ++ b) = (stepsGet v a).bind (fun n => stepsGet n b)
+  | [], b, v => by simp [fad_stepsGet_nil]
+  | .key k :: r, b, v => by
+    cases v with
+    | dict c kvs =>
+      simp only [List.cons_append, stepsGet]
+      cases lookup k kvs with
+      | none => rfl
+      | some x => simp only [Option.bind_some]; exact fad_stepsGet_append r b x
+    | _ => simp [stepsGet]
+  | .idx e s :: r, b, v => by
+    cases v with
+    | list c xs =>
+      simp only [List.cons_append, stepsGet]
+      cases pyIndex xs e.val with
+      | none => rfl
+      | some x => simp only [Option.bind_some]; exact fad_stepsGet_append r b x
+    | _ => simp [stepsGet]
+
+theorem fad_keysOk_stepsGet : ∀ (steps : List StepSp) {v n : Val}, KeysOkV v → stepsGet v steps = some n → KeysOkV n
+  | [], v, n, hk, h => by
+    rw [fad_stepsGet_nil] at h
+    cases h; exact hk
+  | .key k :: r, v, n, hk, h => by
+    obtain ⟨cls, kvs, x, rfl, hl, hr⟩ := stepsGet_key_inv h
+    simp only [KeysOkV] at hk
+    exact fad_keysOk_stepsGet r (fad_keysOk_lookup hk hl).2.1 hr
+  | .idx e s :: r, v, n, hk, h => by
+    obtain ⟨cls, xs, m, y, rfl, _, hx, hr⟩ := stepsGet_idx_inv h
+    simp only [KeysOkV] at hk
+    exact fad_keysOk_stepsGet r (fad_keysOk_elem hk hx) hr
+
+theorem fad_addIdx_snoc (init : List Grp) (g : Grp) (i : Int) :
+    addIdx (init ++ [g]) i = init ++ [(g.1, g.2 ++ [i])] := by
+  simp [addIdx]
+
+theorem fad_snoc_of_ne {gs : List Grp} (h : gs ≠ []) : ∃ init g, gs = init ++ [g] :=
+  ⟨gs.dropLast, gs.getLast h, (List.dropLast_concat_getLast h).symm⟩
+
+theorem fad_grpText_addIdx (g : Grp) (i : Int) : grpText (g.1, g.2 ++ [i]) = grpText g ++ bracket (intRepr i) := by
+  simp [grpText]
+
+theorem fad_stepsOfG_snoc_key (gs : List Grp) (k : Str) : stepsOfG (gs ++ [(k, [])]) = stepsOfG gs ++ [StepSp.key k] := by
+  simp [stepsOfG]
+
+theorem fad_stepsOfG_addIdx (init : List Grp) (g : Grp) (i : Int) :
+    stepsOfG (init ++ [(g.1, g.2 ++ [i])]) = stepsOfG (init ++ [g]) ++ [StepSp.idx (spOfInt i) false] := by
+  simp [stepsOfG]
+
+/-- the in-place update of the last element, whatever the last element currently is -/
+theorem fad_setLast_addIdx {gs : List Grp} (hne : gs ≠ []) (cur : FL) (hcur : cur.dropLast = (flOfG gs).dropLast) (i : Int) :
+    setLast cur ((flOfG gs).getLast?.getD [] ++ bracket (intRepr i)) = flOfG (addIdx gs i) := by
+  obtain ⟨init, g, rfl⟩ := fad_snoc_of_ne hne
+  rw [fad_addIdx_snoc]
+  simp only [setLast, hcur, flOfG, List.map_append, List.map_cons, List.map_nil, List.dropLast_concat,
+    List.getLast?_append, List.getLast?_singleton, Option.some_or, Option.getD_some, fad_grpText_addIdx]
+
+theorem fad_flOfG_isEmpty {gs : List Grp} (hne : gs ≠ []) : (flOfG gs).isEmpty = false := by
+  cases gs with
+  | nil => exact absurd rfl hne
+  | cons _ _ => rfl
+
+/-- **the invariant** of a call `_findall(node, …, found_xpath_list = fl, parent_nodes_stack = ps)`
+inside a search on `root`: the path list is the text of groups that spell a walk from the root to
+`node`, and every proper prefix of the path list that is registered in the stack is registered
+with the node that prefix leads to -/
+structure FadInv (root : Val) (gs : List Grp) (node : Val) (fl : FL) (ps : PS) : Prop where
+  plain : GrpsPlain gs
+  fl_eq : fl = flOfG gs
+  at_ : stepsGet root (stepsOfG gs) = some node
+  stack : ∀ m, m < gs.length → ∀ nd, lookup (keyOf (flOfG (gs.take m))) ps = some nd →
+    stepsGet root (stepsOfG (gs.take m)) = some nd
+
+theorem FadInv.start (root : Val) : FadInv root [] root [] [] where
+  plain := fun _ h => by cases h
+  fl_eq := rfl
+  at_ := fad_stepsGet_nil root
+  stack := fun m h => by simp at h
+
+theorem fad_take_prefix_ne {gs : List Grp} (hp : GrpsPlain gs) {m : Nat} (hm : m < gs.length) :
+    keyOf (flOfG (gs.take m)) ≠ keyOf (flOfG gs) := by
+  have e : gs.take m ++ gs.drop m = gs := List.take_append_drop m gs
+  have hd : gs.drop m ≠ [] := by
+    intro h
+    have := congrArg List.length h
+    simp at this
+    omega
+  have := fad_keyOf_prefix_ne (gs.take m) (gs.drop m) (by rw [e]; exact hp) hd
+  rwa [e] at this
+
+/-- a name step (also the descent of `*` into a child) -/
+theorem FadInv.key {root : Val} {gs : List Grp} {c : Cls} {kvs : List (Str × Val)} {fl : FL} {ps : PS}
+    (h : FadInv root gs (.dict c kvs) fl ps) {k : Str} {child : Val} (hk : PlainKey k)
+    (hl : lookup k kvs = some child) :
+    FadInv root (gs ++ [(k, [])]) child (fl ++ [k]) (push ps fl (.dict c kvs)) := by
+  have hpl : GrpsPlain (gs ++ [(k, [])]) := by
+    intro g hg
+    simp only [List.mem_append, List.mem_singleton] at hg
+    rcases hg with hg | rfl
+    · exact h.plain g hg
+    · exact hk
+  refine ⟨hpl, ?_, ?_, ?_⟩
+  · simp [flOfG, grpText, h.fl_eq]
+  · rw [fad_stepsOfG_snoc_key, fad_stepsGet_append, h.at_]
+    simp [stepsGet, hl]
+  · intro m hm nd hlk
+    simp only [List.length_append, List.length_singleton] at hm
+    have htake : (gs ++ [((k, []) : Grp)]).take m = gs.take m := List.take_append_of_le_length (by omega)
+    rw [htake] at hlk ⊢
+    by_cases hmm : m = gs.length
+    · subst hmm
+      rw [List.take_length] at hlk ⊢
+      rw [← h.fl_eq, push, lookup_kvSet_same] at hlk
+      cases hlk
+      exact h.at_
+    · have hm' : m < gs.length := by omega
+      have hne := fad_take_prefix_ne h.plain hm'
+      rw [push, lookup_kvSet_other _ _ _ _ (by rw [h.fl_eq]; exact hne)] at hlk
+      exact h.stack m hm' nd hlk
+
+theorem FadInv.gs_ne_of_list {root : Val} {gs : List Grp} {c : Cls} {xs : List Val} {fl : FL} {ps : PS}
+    (h : FadInv root gs (.list c xs) fl ps) (hroot : ∃ c kvs, root = .dict c kvs) : gs ≠ [] := by
+  intro hgs
+  subst hgs
+  obtain ⟨c', kvs, rfl⟩ := hroot
+  have := h.at_
+  simp [stepsOfG, stepsGet] at this
+
+/-- an index step (also one round of the `[*]` loop) -/
+theorem FadInv.idx {root : Val} {gs : List Grp} {c : Cls} {xs : List Val} {fl : FL} {ps : PS}
+    (h : FadInv root gs (.list c xs) fl ps) (hroot : ∃ c kvs, root = .dict c kvs) {i : Int} {n : Nat} {child : Val}
+    (hn : normIdx i xs.length = some n) (hx : xs[n]? = some child) :
+    FadInv root (addIdx gs i) child (flOfG (addIdx gs i)) (push ps (flOfG (addIdx gs i)) (.list c xs)) := by
+  obtain ⟨init, g, rfl⟩ := fad_snoc_of_ne (h.gs_ne_of_list hroot)
+  rw [fad_addIdx_snoc]
+  have hpl : GrpsPlain (init ++ [(g.1, g.2 ++ [i])]) := by
+    intro g' hg
+    simp only [List.mem_append, List.mem_singleton] at hg
+    rcases hg with hg | rfl
+    · exact h.plain g' (by simp [hg])
+    · exact h.plain g (by simp)
+  refine ⟨hpl, rfl, ?_, ?_⟩
+  · rw [fad_stepsOfG_addIdx, fad_stepsGet_append, h.at_]
+    simp [stepsGet, pyIndex, spOfInt_val, hn, hx]
+  · intro m hm nd hlk
+    simp only [List.length_append, List.length_singleton] at hm
+    have htake : (init ++ [((g.1, g.2 ++ [i]) : Grp)]).take m = init.take m := List.take_append_of_le_length (by omega)
+    have htake' : (init ++ [g]).take m = init.take m := List.take_append_of_le_length (by omega)
+    have hne : keyOf (flOfG (init.take m)) ≠ keyOf (flOfG (init ++ [((g.1, g.2 ++ [i]) : Grp)])) := by
+      have := fad_take_prefix_ne hpl (m := m) (by simp; omega)
+      rwa [htake] at this
+    rw [htake] at hlk ⊢
+    rw [push, lookup_kvSet_other _ _ _ _ hne] at hlk
+    have := h.stack m (by simp; omega) nd (by rw [htake']; exact hlk)
+    rwa [htake'] at this
+
+/-- a `'..'` step -/
+theorem FadInv.up {root : Val} {gs : List Grp} {node : Val} {fl : FL} {ps : PS}
+    (h : FadInv root gs node fl ps) (hne : gs ≠ []) {target : Val}
+    (hl : lookup (keyOf fl.dropLast) ps = some target) :
+    FadInv root gs.dropLast target fl.dropLast ps := by
+  obtain ⟨init, g, rfl⟩ := fad_snoc_of_ne hne
+  have hfl : fl.dropLast = flOfG init := by simp [h.fl_eq, flOfG]
+  have htake : (init ++ [g]).take init.length = init := by simp
+  rw [List.dropLast_concat, hfl]
+  rw [hfl] at hl
+  refine ⟨fun g' hg => h.plain g' (by simp [hg]), rfl, ?_, ?_⟩
+  · have := h.stack init.length (by simp) target (by rw [htake]; exact hl)
+    rwa [htake] at this
+  · intro m hm nd hlk
+    have htk : (init ++ [g]).take m = init.take m := List.take_append_of_le_length (by omega)
+    have := h.stack m (by simp; omega) nd (by rw [htk]; exact hlk)
+    rwa [htk] at this
+
+/-! ## every result of a search without `text()` conditions spells the position of its node -/
+
+/-- no token is a `text()` condition -/
+def NoText (toks : List Str) : Prop := ∀ tok ∈ toks, ∀ eq v, classify tok ≠ .text eq v
+
+/-- every pair of the mapping: the key is the text of groups that spell a walk from the root to
+the value -/
+def FadRes (root : Val) (f : Found) : Prop :=
+  ∀ kv ∈ f, ∃ gs, GrpsPlain gs ∧ kv.1 = keyOf (flOfG gs) ∧ stepsGet root (stepsOfG gs) = some kv.2
+
+def FadRecOk (root : Val) (rec : Val → List Str → FL → PS → Out) : Prop :=
+  ∀ node toks fl ps gs, FadInv root gs node fl ps → NoText toks →
+    ∀ f, (rec node toks fl ps).res = .ok (some f) → FadRes root f
+
+theorem fad_mem_kvSet {k : Str} {v : Val} : ∀ {l : List (Str × Val)} {kv : Str × Val}, kv ∈ kvSet k v l →
+    kv = (k, v) ∨ kv ∈ l
+  | [], kv, h => by simp [kvSet] at h; exact Or.inl h
+  | (k', x) :: r, kv, h => by
+    simp only [kvSet] at h
+    split at h
+    · rename_i heq
+      simp only [List.mem_cons] at h
+      rcases h with h | h
+      · subst heq; exact Or.inl h
+      · exact Or.inr (by simp [h])
+    · simp only [List.mem_cons] at h
+      rcases h with h | h
+      · exact Or.inr (by simp [h])
+      · rcases fad_mem_kvSet h with h' | h'
+        · exact Or.inl h'
+        · exact Or.inr (by simp [h'])
+
+theorem FadRes.nil (root : Val) : FadRes root [] := fun _ h => by cases h
+
+theorem FadRes.upd {root : Val} {acc : Found} (h : FadRes root acc) {f : Option Found}
+    (hf : ∀ f', f = some f' → FadRes root f') : FadRes root (upd acc f) := by
+  cases f with
+  | none => exact h
+  | some l =>
+    have hl := hf l rfl
+    simp only [FindAll.upd]
+    clear hf
+    induction l generalizing acc with
+    | nil => exact h
+    | cons e r ih =>
+      simp only [List.foldl_cons]
+      apply ih
+      · intro kv hkv
+        rcases fad_mem_kvSet hkv with h' | h'
+        · rw [h']; exact hl e (by simp)
+        · exact h kv h'
+      · intro kv hkv; exact hl kv (by simp [hkv])
+
+theorem fad_starLoop_ok {root : Val} (call : Val → FL → Out) (re : Bool) (last : Str) (base : FL)
+    (hcall : ∀ c cur, (call c cur).fl.dropLast = cur.dropLast) :
+    ∀ (xs : List Val) (i : Nat) (cur : FL) (acc : Found), cur.dropLast = base → FadRes root acc →
+      (∀ j c f, xs[j]? = some c → (call c (base ++ [last ++ bracket (natRepr (i + j))])).res = .ok (some f) →
+        FadRes root f) →
+      ∀ f, (starLoop call re last i xs cur acc).1 = .ok (some f) → FadRes root f := by
+  intro xs
+  induction xs with
+  | nil => intro i cur acc _ ha _ f h; simp only [starLoop] at h; cases h; exact ha
+  | cons c cs ih =>
+    intro i cur acc hcur ha hc f h
+    simp only [starLoop] at h
+    split at h
+    · have hcur1 : setLast cur (last ++ bracket (natRepr i)) = base ++ [last ++ bracket (natRepr (i + 0))] := by
+        simp [setLast, hcur]
+      rw [hcur1] at h
+      split at h
+      · cases h
+      · rename_i f1 hres
+        refine ih (i + 1) _ _ ?_ (ha.upd (fun f' hf' => hc 0 c f' (by simp) (by rw [hres, hf']))) ?_ f h
+        · rw [hcall]; simp
+        · intro j c' f' hj hres'
+          refine hc (j + 1) c' f' (by simpa using hj) ?_
+          rw [show i + (j + 1) = i + 1 + j by omega]; exact hres'
+    · cases re <;> simp [raiseOr] at h
+
+theorem fad_keysLoop_ok {root : Val} (call : Str → Val → Out) :
+    ∀ (kvs : List (Str × Val)) (acc : Found), FadRes root acc →
+      (∀ kc ∈ kvs, ∀ f, (call kc.1 kc.2).res = .ok (some f) → FadRes root f) →
+      ∀ f, keysLoop call kvs acc = .ok (some f) → FadRes root f := by
+  intro kvs
+  induction kvs with
+  | nil => intro acc ha _ f h; simp only [keysLoop] at h; cases h; exact ha
+  | cons e r ih =>
+    obtain ⟨k, c⟩ := e
+    intro acc ha hc f h
+    simp only [keysLoop] at h
+    split at h
+    · split at h
+      · cases h
+      · rename_i f1 hres
+        exact ih _ (ha.upd (fun f' hf' => hc (k, c) (by simp) f' (by rw [hres, hf'])))
+          (fun kc hkc => hc kc (by simp [hkc])) f h
+    · exact ih _ ha (fun kc hkc => hc kc (by simp [hkc])) f h
+
 end N0.FindAll
